@@ -77,3 +77,27 @@ _emit_tables_calls = emit
 
 def emit(repo, spec, H):  # noqa: F811
     return _emit_tables_calls(repo, spec, H) + _exprs(repo, spec, H)
+
+
+def _tokens(repo, spec, H):
+    """spec["c12_tokens"] = [[file, function, defname, [regex, ...]], ...]: the sequence (source order, preprocessed body of
+    the function) of the listed tokens, each encoded as its index in the list -- statements such as 'refcount++' or an
+    error exit, not only calls."""
+    out = []
+    for f, fn, name, rxs in spec.get("c12_tokens", []):
+        body = H.func_body(H.src(repo, f), fn)
+        hits = []
+        for i, rx in enumerate(rxs):
+            for m in re.finditer(rx, body):
+                hits.append((m.start(), i))
+        hits.sort()
+        out.append("(* %s: tokens of %s in source order; codes: %s *)" % (f, fn, ", ".join("%d=/%s/" % (i, r.replace("*)", "* )")) for i, r in enumerate(rxs))))
+        out.append("Definition %s : list Z := [%s]." % (name, "; ".join(str(i) for _, i in hits)))
+    return out
+
+
+_emit_before_tokens = emit
+
+
+def emit(repo, spec, H):  # noqa: F811
+    return _emit_before_tokens(repo, spec, H) + _tokens(repo, spec, H)
